@@ -2,9 +2,10 @@
 
     Only statements, each closed by [exact] of a lemma of [Service/Proofs*.v], with
     [Print Assumptions] beneath. *)
+From Irismod Require Import Service.Check.
 From Irismod Require Import Service.Model Service.Proofs Service.ProofsHist Service.ProofsEscrow
   Service.ProofsSched Service.ProofsBatch Service.ProofsLiab Service.ProofsTally Service.ProofsLive
-  Service.ProofsModule Service.ProofsFresh Service.ProofsCallback Service.ProofsSchedule Service.ProofsModuleHist Service.ProofsOutcome.
+  Service.ProofsModule Service.ProofsFresh Service.ProofsCallback Service.ProofsSchedule Service.ProofsModuleHist Service.ProofsOutcome Service.ProofsCheck.
 
 (** Over EVERY history (any list of steps: messages of any kind and content, block ends,
     rate changes, transfers, module calls) from any initial height, time and ledger: the
@@ -236,6 +237,152 @@ Theorem module_context_control :
 Proof. exact module_context_control_lemma. Qed.
 Print Assumptions module_context_control.
 
+(** ** The model passes its own check ([holds_C08], Service/Check.v), clause by clause.
+    [obs_of univ code newctx cb s] is what the driver would observe of the model state [s].  For
+    EVERY history whose context-creating transactions carry distinct hashes, whatever the checker
+    state ([seen], [tr], [sc]), the previous observation [p] and the step [st]: evaluated on the
+    observation of the state reached, [holds_C08] never answers the clause named.  PARTIAL: see the
+    list of clauses at each theorem; clauses comparing two consecutive observations are not covered
+    unless named. *)
+
+(** clause 9: every active request belongs to the running, current batch of a stored context *)
+Theorem model_passes_C08_clause_9 :
+  forall c steps h0 t0 l0 univ seen fired tr sc p st code nc cb,
+    NoDup (create_txhs steps) ->
+    let s := run c (init h0 t0 l0) steps in
+    holds_C08 seen fired tr sc p st (obs_of univ code nc cb s) <> 9.
+Proof. exact model_passes_C08_clause_9_lemma. Qed.
+Print Assumptions model_passes_C08_clause_9.
+
+(** clause 8: every new-batch / expired-batch queue entry agrees with the height marker of its
+    context, and every stored context with a running batch has an expiry marker *)
+Theorem model_passes_C08_clause_8 :
+  forall c steps h0 t0 l0 univ seen fired tr sc p st code nc cb,
+    NoDup (create_txhs steps) ->
+    let s := run c (init h0 t0 l0) steps in
+    holds_C08 seen fired tr sc p st (obs_of univ code nc cb s) <> 8.
+Proof. exact model_passes_C08_clause_8_lemma. Qed.
+Print Assumptions model_passes_C08_clause_8.
+
+(** clauses 2 and 6 compare the observation before a step with the one after it.  From ANY state
+    [s] (reachable or not), for one step [st] of the model, [obs_step univ c s st] being what the
+    driver would print after it (result code, new context id, callbacks logged by the step, state):
+    2 — a step the model rejects leaves the whole observation unchanged; 6 — a pause / start /
+    kill / update that succeeds was sent by the consumer of a context that is not module-owned
+    (messages), or, through the keeper, on a module-owned context by its consumer *)
+Theorem model_passes_C08_clauses_2_6 :
+  forall c s st univ seen fired tr sc pcode pnc pcb,
+    let k := holds_C08 seen fired tr sc (obs_of univ pcode pnc pcb s) st (obs_step univ c s st) in
+    k <> 2 /\ k <> 6.
+Proof. exact model_passes_C08_clauses_2_6_lemma. Qed.
+Print Assumptions model_passes_C08_clauses_2_6.
+
+(** clause 7, the two history-wide lists (PARTIAL: the third list of clause 7 — the callbacks of
+    the step are exactly the expected ones, [same_set (expected_cb p st o) (o_cb o)] — is not
+    covered).  Along the model's own trace the checker's accumulator [fired] is [cb_keys] of the
+    callback log so far (empty at the start, extended by [cb_keys (o_cb o)] at every step — the
+    log only grows); then no response callback logged by the step repeats a (context, batch)
+    already fired, and the current batch of every stored module-owned context, once closed, has
+    fired.  These are exactly the boolean entries the checker evaluates. *)
+Theorem model_passes_C08_clause_7_history :
+  forall c steps st h0 t0 l0 univ,
+    NoDup (create_txhs (steps ++ [st])) ->
+    let s := run c (init h0 t0 l0) steps in
+    let o := obs_step univ c s st in
+    let fired := cb_keys (cblog s) in
+    cblog (init h0 t0 l0) = []
+    /\ fired ++ cb_keys (o_cb o) = cb_keys (cblog (apply c s st))
+    /\ (forall k, In k (cb_keys (o_cb o)) -> negb (existsb (eqb k) fired) = true)
+    /\ (forall e, In e (o_ctxs o) ->
+          (negb (t_mod (snd e)) || t_brun (snd e) || (t_batch (snd e) <? 1)
+           || existsb (eqb (fst e, t_batch (snd e))) (fired ++ cb_keys (o_cb o))) = true).
+Proof. exact model_passes_C08_clause_7_history_lemma. Qed.
+Print Assumptions model_passes_C08_clause_7_history.
+
+(** clause 1 (a request changes status only active -> answered by a successful response of its
+    provider not after its expiry height, or active -> expired/removed in the end-block of its
+    expiry height; inactive requests are only ever removed, in an end-block; a new request is
+    active, unanswered, created at the current height with a later expiry, under an id never seen
+    before; after an end-block no active request is at or past its expiry height).
+    Along the model's OWN trace of any history — [pre] the steps already executed, [st] the next
+    one, [model_seen] the checker's accumulator of request ids (as [check_from] computes it) —
+    [holds_C08] never answers 1.  HYPOTHESES: no service is served by a module ([c_msvc c < 0]: then
+    requests are created by the end blocker only, and a new id is fresh because it carries the
+    current height; with a module-served service the freshness argument needs batch numbers and is
+    not done here); distinct hashes; and no end-block step with a negative time increment
+    ([good_step]) — the model rejects such a step, the driver never generates one, and the checker's
+    "nothing active at its expiry height after an end-block" entry does not look at the result
+    code, so on such a step the checker WOULD report clause 1 on the model's own observation. *)
+Theorem model_passes_C08_clause_1 :
+  forall c steps h0 t0 l0 univ,
+    c_msvc c < 0 -> NoDup (create_txhs steps) -> Forall good_step steps ->
+    forall pre st post, steps = pre ++ st :: post ->
+    forall fired tr sc pcode pnc pcb,
+      let s := run c (init h0 t0 l0) pre in
+      holds_C08 (model_seen univ c (init h0 t0 l0) [] pre) fired tr sc (obs_of univ pcode pnc pcb s) st (obs_step univ c s st) <> 1.
+Proof. exact model_passes_C08_clause_1_lemma. Qed.
+Print Assumptions model_passes_C08_clause_1.
+
+(** clause 5: over an end-block a paused context keeps its batch counter — one model step from any
+    state whose stored context ids are distinct (true of every reachable state) *)
+Theorem model_passes_C08_clause_5 :
+  forall c s st univ seen fired tr sc pcode pnc pcb,
+    NoDup (keys (ctxs s)) ->
+    holds_C08 seen fired tr sc (obs_of univ pcode pnc pcb s) st (obs_step univ c s st) <> 5.
+Proof. exact model_passes_C08_clause_5_lemma. Qed.
+Print Assumptions model_passes_C08_clause_5.
+
+(** clause 3 (one-shot contexts: a running, non-repeated context whose batch expires in this
+    end-block is gone afterwards; a non-repeated context never carries a batch number above 1).  From
+    NEW invariant [NR] of Service/ProofsCheck.v, proved over every history: a non-repeated stored
+    context has batch <= 1, and once it has issued its batch it is neither scheduled for another one
+    nor paused (so [start] cannot re-enqueue it); and [end_block_oneshot].  [good_step]: as for
+    clause 1, on a REJECTED end-block (negative time increment) the checker's entry would fail on
+    the model's own observation, because it does not look at the result code. *)
+Theorem model_passes_C08_clause_3 :
+  forall c steps st h0 t0 l0 univ seen fired tr sc pcode pnc pcb,
+    NoDup (create_txhs (steps ++ [st])) -> good_step st ->
+    let s := run c (init h0 t0 l0) steps in
+    holds_C08 seen fired tr sc (obs_of univ pcode pnc pcb s) st (obs_step univ c s st) <> 3.
+Proof. exact model_passes_C08_clause_3_lemma. Qed.
+Print Assumptions model_passes_C08_clause_3.
+
+(** [model_passes_check], PARTIAL, for [check_case_C08] itself (see [model_passes_clauses_C07],
+    Props/C07.v, for the reading and the hypotheses): on the case the driver would print for the
+    MODEL, [check_case_C08] answers (-1, p, k) — no divergence — with k never 1, 2, 3, 5, 6, 8 or 9.
+    NOT covered: clause 4 (the checker's schedule tracker) and clause 7 as a whole (its two
+    history-wide lists are [model_passes_C08_clause_7_history]; the step-wise comparison with
+    [expected_cb] is not done).  So "k = 0" is not a theorem: k is 0, 4 or 7. *)
+Theorem model_passes_clauses_C08 :
+  forall c steps h0 t0 l0 univ,
+    c_msvc c < 0 -> 0 <= c_tax c -> clean l0 -> NoDup (create_txhs steps) -> Forall good_step steps ->
+    In (DEP, BASE) univ -> (forall d, In d (denoms c) -> In (REQ, d) univ) ->
+    (forall pre st post, steps = pre ++ st :: post -> forall rid q, get rid (reqs (run c (init h0 t0 l0) pre)) = Some q ->
+       In (TAX, q_fd q) univ /\ In (REQ, q_fd q) univ) ->
+    ledger_of (obs_of univ 0 None [] (init h0 t0 l0)) = l0 ->
+    forall corr p k, check_case_C08 (model_case univ c h0 t0 l0 steps) = (corr, p, k) ->
+      corr = -1 /\ k <> 1 /\ k <> 2 /\ k <> 3 /\ k <> 5 /\ k <> 6 /\ k <> 8 /\ k <> 9.
+Proof. exact model_passes_clauses_C08_3_lemma. Qed.
+Print Assumptions model_passes_clauses_C08.
+
+(** The same for ANY configuration — module-served services included, any end-block step — with the
+    correspondence component, for both properties at once; only clause 1 of C08 is left out (its
+    freshness argument is the one that needs [c_msvc c < 0]).  On the case the driver would print for
+    the model, [check_case_C07] answers (-1, p, k) with k not in {1,2,3,5} and [check_case_C08]
+    answers (-1, p, k) with k not in {2,5,6,8,9}. *)
+Theorem model_passes_clauses_any_config :
+  forall c steps h0 t0 l0 univ,
+    0 <= c_tax c -> clean l0 -> NoDup (create_txhs steps) ->
+    In (DEP, BASE) univ -> (forall d, In d (denoms c) -> In (REQ, d) univ) ->
+    (forall pre st post, steps = pre ++ st :: post -> forall rid q, get rid (reqs (run c (init h0 t0 l0) pre)) = Some q ->
+       In (TAX, q_fd q) univ /\ In (REQ, q_fd q) univ) ->
+    ledger_of (obs_of univ 0 None [] (init h0 t0 l0)) = l0 ->
+    let cs := model_case univ c h0 t0 l0 steps in
+    (forall corr p k, check_case_C07 cs = (corr, p, k) -> corr = -1 /\ k <> 1 /\ k <> 2 /\ k <> 3 /\ k <> 5)
+    /\ (forall corr p k, check_case_C08 cs = (corr, p, k) -> corr = -1 /\ k <> 2 /\ k <> 5 /\ k <> 6 /\ k <> 8 /\ k <> 9).
+Proof. exact model_passes_clauses_any_lemma. Qed.
+Print Assumptions model_passes_clauses_any_config.
+
 (** ** non-vacuity: a history in which one request is answered and its sibling expires; a
     late answer to the expired one and a duplicate answer to the answered one are rejected;
     the one-shot context is removed; a repeated context (frequency 3, total 2) starts its
@@ -313,3 +460,25 @@ Example c08_callback_nonvacuous :
   /\ get (14, 0) (newmark s) = Some 11.
 Proof. split; [vm_compute; reflexivity|]. split; [vm_compute; reflexivity|]. split; [vm_compute; repeat constructor; simpl; tauto|].
   split; [vm_compute; repeat constructor; simpl; tauto|vm_compute; reflexivity]. Qed.
+
+(** the hypotheses of [model_passes_clauses_C08] hold of the example histories (answered + expired
+    requests; repeated context paused; module-owned context with callbacks), and on the cases the
+    driver would print for the model on them the whole checker answers "no divergence, no clause" *)
+Definition ex_univ : list (Z * Z) := flat_map (fun a => [(a, 0); (a, 1)]) [DEP; REQ; TAX; 0; 1; 2; 3; 4; 5; 6; 7].
+Definition ex_l0n : ledger := ledger_of (obs_of ex_univ 0 None [] (init 1 1000 ex_l0)).
+Example c08_model_passes_clauses_nonvacuous :
+  c_msvc ex_cfg < 0 /\ 0 <= c_tax ex_cfg /\ bal ex_l0n DEP BASE = 0 /\ bal ex_l0n REQ 0 = 0 /\ bal ex_l0n REQ 1 = 0
+  /\ Forall good_step ex_hist /\ Forall good_step ex_hist2 /\ Forall good_step ex_hist4
+  /\ (forall pre st post, ex_hist2 = pre ++ st :: post -> forall rid q, get rid (reqs (run ex_cfg (init 1 1000 ex_l0n) pre)) = Some q ->
+        In (TAX, q_fd q) ex_univ /\ In (REQ, q_fd q) ex_univ)
+  /\ ledger_of (obs_of ex_univ 0 None [] (init 1 1000 ex_l0n)) = ex_l0n
+  /\ check_all (model_case ex_univ ex_cfg 1 1000 ex_l0n ex_hist) = (-1, -1, 0, -1, 0)
+  /\ check_all (model_case ex_univ ex_cfg 1 1000 ex_l0n ex_hist2) = (-1, -1, 0, -1, 0)
+  /\ check_all (model_case ex_univ ex_cfg 1 1000 ex_l0n ex_hist4) = (-1, -1, 0, -1, 0).
+Proof.
+  split; [vm_compute; reflexivity|]. split; [vm_compute; discriminate|].
+  split; [reflexivity|]. split; [reflexivity|]. split; [reflexivity|].
+  split; [repeat constructor; vm_compute; discriminate|]. split; [repeat constructor; vm_compute; discriminate|].
+  split; [repeat constructor; vm_compute; discriminate|].
+  split; [apply fdsb_ok; vm_compute; reflexivity|]. repeat split; vm_compute; reflexivity.
+Qed.
